@@ -108,7 +108,16 @@ def matrix_builder(g, E, do, length):
         req(14, [{"op": "register", "bid": None, "crypto": None, "otype": ob["otype"],
                   "tmpl": tm_opaque if ob["otype"] == 8 else tm, "obj": ob}])
     do({"cmd": "dump"})
-    for v in VERS + BAD_VERS:
+    # the order in which versions are exercised on the one engine changes with the seed (ascending, descending,
+    # shuffled): what a request under one version leaves behind must not show under another
+    order = VERS + BAD_VERS
+    x = g.r.random()
+    if x < 0.34:
+        order = list(reversed(order))
+    elif x < 0.67:
+        order = list(order)
+        g.r.shuffle(order)
+    for v in order:
         req(v, [{"op": "query", "bid": None, "crypto": None, "functions": [1, 3]}])
         req(v, [{"op": "discoverVersions", "bid": None, "crypto": None, "versions": []}])
         req(v, [{"op": "discoverVersions", "bid": None, "crypto": None, "versions": [20, 9, 14, 21, 10]}])
@@ -121,6 +130,10 @@ def matrix_builder(g, E, do, length):
                 it["bid"] = None
                 req(v, [it])
                 do({"cmd": "dump"})
+    # and once more, newest first then oldest first: Query / DiscoverVersions after everything above
+    for v in list(reversed(VERS)) + VERS:
+        req(v, [{"op": "query", "bid": None, "crypto": None, "functions": [1, 3]}])
+        req(v, [{"op": "discoverVersions", "bid": None, "crypto": None, "versions": []}])
 
 
 def nontrivial(j, o):
